@@ -205,11 +205,17 @@ def search(n):
             async with aiotarstream.open(stream=sink, mode="w", format=tarfile.GNU_FORMAT, copybufsize=rng.choice([None, 1000, 49152])) as tar:
                 await tar.add(os.path.join(root, "src"), arcname="src")
 
-        asyncio.run(w())
-        with tarfile.open(fileobj=io.BytesIO(bytes(sink.buf))) as t:
-            for name, data in files.items():
-                if t.extractfile("src/" + name).read() != data:
-                    return {"failure": "archive written by the async writer is not read back by tarfile", "member": name}
+        try:
+            asyncio.run(w())
+        except Exception as e:  # noqa
+            return {"failure": f"writing the tree with the async tar writer raised {type(e).__name__}: {e}"}
+        try:
+            with tarfile.open(fileobj=io.BytesIO(bytes(sink.buf))) as t:
+                for name, data in files.items():
+                    if t.extractfile("src/" + name).read() != data:
+                        return {"failure": "archive written by the async writer is not read back by tarfile", "member": name}
+        except (tarfile.TarError, KeyError, EOFError) as e:
+            return {"failure": f"the archive written by the async writer is not readable by tarfile: {type(e).__name__}: {e}"}
     finally:
         shutil.rmtree(root, ignore_errors=True)
     return None
